@@ -80,7 +80,7 @@ class Sdr(object):
         req.bytes_to_read = length
 
         rsp = get_sdr_chunk_helper(self.send_message, req,
-                                   self.reserve_device_sdr_repository)
+                                   self.reserve_sdr_repository)
 
         return (rsp.next_record_id, rsp.record_data)
 
